@@ -125,22 +125,143 @@ Proof.
   destruct (identifier_guard t H c Hc) as [_ [Hb _]]. unfold is_break. rewrite Hb. reflexivity.
 Qed.
 
-(* the replacement clean-up as the tables have it: only '\n' is replaced *)
-Lemma replace_newline_nbk : forall r,
-  forallb (fun c => negb (is_break c) || (c =? 10)) r = true -> nbk (replace_chain depr_repls r) = true.
+(* ------------------------------------------------------------------ str.split() / sep.join() *)
+Definition nsp (c : N) : bool := negb (is_py_space c).
+
+Lemma py_split_aux_words : forall s cur w,
+  forallb nsp cur = true -> In w (py_split_aux cur s) ->
+  w <> [] /\ forallb nsp w = true /\ (forall x, In x w -> In x cur \/ In x s).
 Proof.
-  intros r H. unfold replace_chain, depr_repls. simpl fold_left. unfold replace1. cbn [fst snd].
-  induction r as [|c r IH]; [reflexivity|]. simpl in H. apply andb_true_iff in H. destruct H as [Hc Hr].
-  cbn [flat_map]. rewrite nbk_app. rewrite (IH Hr). rewrite andb_true_r.
-  destruct (c =? 10) eqn:E; [reflexivity|]. rewrite orb_false_r in Hc. simpl. rewrite Hc. reflexivity.
+  induction s as [|c r IH]; intros cur w Hcur Hin.
+  - simpl in Hin. destruct cur as [|c0 cur']; [destruct Hin|]. destruct Hin as [<-|[]].
+    split; [|split].
+    + intro E. apply (f_equal (@length N)) in E. rewrite rev_length in E. discriminate.
+    + rewrite forallb_forall in *. intros x Hx. apply Hcur. apply in_rev. exact Hx.
+    + intros x Hx. left. apply in_rev. exact Hx.
+  - simpl in Hin. destruct (is_py_space c) eqn:Ec.
+    + destruct cur as [|c0 cur'].
+      * destruct (IH [] w eq_refl Hin) as [H1 [H2 H3]]. split; [exact H1|]. split; [exact H2|].
+        intros x Hx. destruct (H3 x Hx) as [[]|H]. right. right. exact H.
+      * destruct Hin as [<-|Hin].
+        -- split; [|split].
+           ++ intro E. apply (f_equal (@length N)) in E. rewrite rev_length in E. discriminate.
+           ++ rewrite forallb_forall in *. intros x Hx. apply Hcur. apply in_rev. exact Hx.
+           ++ intros x Hx. left. apply in_rev. exact Hx.
+        -- destruct (IH [] w eq_refl Hin) as [H1 [H2 H3]]. split; [exact H1|]. split; [exact H2|].
+           intros x Hx. destruct (H3 x Hx) as [[]|H]. right. right. exact H.
+    + assert (Hc : forallb nsp (c :: cur) = true) by (simpl; unfold nsp at 1; rewrite Ec; exact Hcur).
+      destruct (IH (c :: cur) w Hc Hin) as [H1 [H2 H3]]. split; [exact H1|]. split; [exact H2|].
+      intros x Hx. destruct (H3 x Hx) as [[<-|H]|H]; [right; left; reflexivity | left; exact H | right; right; exact H].
 Qed.
 
-Lemma clean_replacement_nbk : forall r,
-  forallb (fun c => negb (is_break c) || (c =? 10)) r = true -> nbk (clean_replacement r) = true.
+Definition word_ok (src : text) (w : text) : Prop :=
+  w <> [] /\ forallb nsp w = true /\ (forall x, In x w -> In x src).
+
+Lemma py_split_words : forall s, Forall (word_ok s) (py_split s).
 Proof.
-  intros r H. unfold clean_replacement. destruct (validate_identifier r) eqn:E.
-  - apply identifier_nbk. exact E.
-  - destruct templates_one_line as [_ [_ [Hp Hq]]]. rewrite !nbk_app. rewrite Hp, Hq, (replace_newline_nbk r H). reflexivity.
+  intro s. apply Forall_forall. intros w Hw. destruct (py_split_aux_words s [] w eq_refl Hw) as [H1 [H2 H3]].
+  split; [exact H1|]. split; [exact H2|]. intros x Hx. destruct (H3 x Hx) as [[]|H]. exact H.
+Qed.
+
+(* the text between the back-quotes: words joined by single spaces *)
+Definition edge_ok (body : text) : Prop :=
+  match body with [] => True | c :: _ => is_py_space c = false end /\
+  is_py_space (last body 1) = false.
+
+Lemma last_app_nonempty : forall (a b : text) d, b <> [] -> last (a ++ b) d = last b d.
+Proof.
+  induction a as [|x a IH]; intros b d Hb; [reflexivity|]. simpl.
+  destruct (a ++ b) eqn:E; [apply app_eq_nil in E; destruct E; contradiction|]. rewrite <- E. apply IH. exact Hb.
+Qed.
+
+Lemma nsp_last : forall w, w <> [] -> forallb nsp w = true -> is_py_space (last w 1) = false.
+Proof.
+  intros w Hne H. rewrite forallb_forall in H.
+  assert (Hin : In (last w 1) w).
+  { destruct w as [|c w']; [congruence|]. clear H Hne. revert c. induction w' as [|d w'' IH]; intro c; [left; reflexivity|].
+    right. apply IH. }
+  specialize (H _ Hin). unfold nsp in H. apply negb_true_iff in H. exact H.
+Qed.
+
+Lemma space_one_not_space : is_py_space 1 = false.
+Proof. vm_compute. reflexivity. Qed.
+
+Lemma join_words : forall src ws, Forall (word_ok src) ws ->
+  let body := join [32] ws in
+  (forall c, In c body -> c = 32 \/ (In c src /\ is_py_space c = false)) /\ edge_ok body.
+Proof.
+  intros src ws H. destruct ws as [|w ws']; [simpl; split; [intros c []|split; [exact I|exact space_one_not_space]]|].
+  inversion H as [|w0 l [Hne [Hnsp Hsrc]] Hrest]; subst. cbv zeta. unfold join. split.
+  - intros c Hc. apply in_app_or in Hc. destruct Hc as [Hc|Hc].
+    + right. split; [apply Hsrc; exact Hc|]. rewrite forallb_forall in Hnsp. specialize (Hnsp c Hc).
+      unfold nsp in Hnsp. apply negb_true_iff in Hnsp. exact Hnsp.
+    + apply in_flat_map in Hc. destruct Hc as [y [Hy Hc]]. destruct Hc as [<-|Hc]; [left; reflexivity|].
+      rewrite Forall_forall in Hrest. destruct (Hrest y Hy) as [_ [Hn Hs]]. right. split; [apply Hs; exact Hc|].
+      rewrite forallb_forall in Hn. specialize (Hn c Hc). unfold nsp in Hn. apply negb_true_iff in Hn. exact Hn.
+  - split.
+    + destruct w as [|c w']; [congruence|]. simpl. simpl in Hnsp. apply andb_true_iff in Hnsp. destruct Hnsp as [Hc _].
+      unfold nsp in Hc. apply negb_true_iff in Hc. exact Hc.
+    + clear H. revert w Hne Hnsp Hsrc. induction ws' as [|y ys IH]; intros w Hne Hnsp Hsrc.
+      * simpl. rewrite app_nil_r. apply nsp_last; assumption.
+      * inversion Hrest as [|y0 l [Hyne [Hynsp Hysrc]] Hrest']; subst.
+        cbn [flat_map]. rewrite last_app_nonempty by discriminate.
+        assert (E : last (([32] ++ y) ++ flat_map (fun y0 : list N => [32] ++ y0) ys) 1
+                    = last (y ++ flat_map (fun y0 : list N => [32] ++ y0) ys) 1).
+        { destruct y as [|c y']; [congruence|]. reflexivity. }
+        rewrite E. apply (IH Hrest' y Hyne Hynsp Hysrc).
+Qed.
+
+(* every line separator is white space for str.split(); the space that join puts back is not a line separator, and
+   a back-quote is not white space *)
+Lemma breaks_are_space : forallb (fun b => is_py_space b) line_breaks = true /\ memN 32 line_breaks = false.
+Proof. vm_compute. auto. Qed.
+
+Lemma replace1_no : forall a b r x, x = a -> ~ In x b -> ~ In x (replace1 a b r).
+Proof.
+  intros a b r x -> Hb Hin. unfold replace1 in Hin. apply in_flat_map in Hin. destruct Hin as [c [_ Hc]].
+  destruct (c =? a) eqn:E; [contradiction|]. destruct Hc as [<-|[]]. rewrite N.eqb_refl in E. discriminate.
+Qed.
+
+(* the repaired clean-up, as the regenerated table has it *)
+Lemma depr_ops_now : depr_ops = [(0, 96, [39]); (1, 0, [32])].
+Proof. reflexivity. Qed.
+
+Lemma wrap_now : depr_wrap_pre = [96] /\ depr_wrap_post = [96].
+Proof. split; reflexivity. Qed.
+
+Theorem replacement_in_one_literal : forall r, validate_identifier r = false ->
+  exists body, clean_replacement r = [96] ++ body ++ [96] /\
+    ~ In 96 body /\
+    (forall c, In c body -> memN c line_breaks = false) /\
+    (forall c, In c body -> is_py_space c = true -> c = 32) /\
+    edge_ok body.
+Proof.
+  intros r Hr. unfold clean_replacement, clean_with. rewrite Hr. rewrite depr_ops_now. destruct wrap_now as [-> ->].
+  cbn [fold_left apply_op]. change (0 =? 0) with true. change (1 =? 0) with false. cbv iota.
+  set (r1 := replace1 96 [39] r).
+  exists (join [32] (py_split r1)). split; [reflexivity|].
+  destruct (join_words r1 (py_split r1) (py_split_words r1)) as [Hchars Hedge].
+  assert (H96 : ~ In 96 r1).
+  { unfold r1. apply replace1_no; [reflexivity|]. simpl. intros [E|[]]. discriminate. }
+  destruct breaks_are_space as [Hbs H32].
+  split; [|split; [|split]].
+  - intro Hin. destruct (Hchars 96 Hin) as [E|[Hsrc _]]; [discriminate | contradiction].
+  - intros c Hc. destruct (Hchars c Hc) as [->|[_ Hsp]]; [exact H32|].
+    destruct (memN c line_breaks) eqn:E; [|reflexivity]. exfalso.
+    rewrite forallb_forall in Hbs. apply memN_spec in E. rewrite (Hbs c E) in Hsp. discriminate.
+  - intros c Hc Hsp. destruct (Hchars c Hc) as [->|[_ Hn]]; [reflexivity|]. rewrite Hn in Hsp. discriminate.
+  - exact Hedge.
+Qed.
+
+Lemma clean_replacement_nbk : forall r, nbk (clean_replacement r) = true.
+Proof.
+  intro r. destruct (validate_identifier r) eqn:E.
+  - unfold clean_replacement, clean_with. rewrite E. apply identifier_nbk. exact E.
+  - destruct (replacement_in_one_literal r E) as [body [-> [_ [Hb _]]]].
+    unfold nbk. rewrite !forallb_app. simpl.
+    assert (Hbody : forallb (fun c => negb (is_break c)) body = true).
+    { rewrite forallb_forall. intros c Hc. unfold is_break. rewrite (Hb c Hc). reflexivity. }
+    rewrite Hbody. reflexivity.
 Qed.
 
 (* the document handed to the reST parser: directive line, line break, indented body *)
@@ -166,17 +287,16 @@ Local Opaque xid_start xid_continue line_breaks py_space rst_ws depr_with depr_w
 Theorem deprecate_one_line : forall name package version repl t,
   deprecation_text name package version repl = Some t ->
   nbk name = true -> nbk version = true ->
-  (forall r, repl = Some r -> forallb (fun c => negb (is_break c) || (c =? 10)) r = true) ->
   count_breaks (deprecation_doc version t) = 1%nat.
 Proof.
-  intros name package version repl t H Hn Hv Hr. unfold deprecation_text in H.
+  intros name package version repl t H Hn Hv. unfold deprecation_text, deprecation_text_with in H.
   destruct (validate_identifier package) eqn:Ep; [|discriminate]. cbn [negb] in H.
   destruct templates_one_line as [Hw [Hwo _]].
   assert (Ht : nbk t = true).
   { destruct repl as [r|]; injection H as <-; apply nbk_fmt; try assumption; intro f.
     - destruct (f =? 0); [exact Hn|]. destruct (f =? 1); [apply identifier_nbk; exact Ep|].
       destruct (f =? 2); [exact Hv|]. destruct (f =? 3); [|reflexivity].
-      apply clean_replacement_nbk. apply Hr. reflexivity.
+      apply clean_replacement_nbk.
     - destruct (f =? 0); [exact Hn|]. destruct (f =? 1); [apply identifier_nbk; exact Ep|].
       destruct (f =? 2); [exact Hv|]. reflexivity. }
   rewrite doc_shape. rewrite count_breaks_nbk_app by exact doc_lit1_nbk.
@@ -185,8 +305,16 @@ Proof.
 Qed.
 
 Local Transparent xid_start xid_continue line_breaks py_space rst_ws depr_with depr_without.
-(* the guard is needed: a carriage return in the replacement starts a new line of reST *)
-Lemma deprecate_one_line_cr :
-  exists t, deprecation_text [102] [112] [49] (Some [13]) = Some t /\
-            count_breaks (deprecation_doc [49] t) = 2%nat.
-Proof. eexists. split; vm_compute; reflexivity. Qed.
+(* before the repair: a carriage return in the replacement started a new line of reST, and a leading space kept the
+   back-quotes from opening a literal *)
+Lemma deprecate_old_cr :
+  match deprecation_text_old [102] [112] [49] (Some [13]) with
+  | Some t => count_breaks (deprecation_doc [49] t) = 2%nat
+  | None => False
+  end.
+Proof. vm_compute. reflexivity. Qed.
+
+Lemma deprecate_old_edge :
+  clean_with old_ops [32; 106; 58; 120] = [96; 32; 106; 58; 120; 96] /\
+  clean_replacement [32; 106; 58; 120] = [96; 106; 58; 120; 96].
+Proof. split; vm_compute; reflexivity. Qed.
